@@ -456,11 +456,14 @@ def c19(tr, sem=None):
             consumed.add(tr['graph']['output'])
             for n in sorted((consumed & valued & ordinary) - recdest):
                 if n in saves and n not in done:
-                    if _save_cut_off_by_the_end_of_the_run(tr, n) and not tr.get('c19_strict'):
+                    if (_save_cut_off_by_the_end_of_the_run(tr, n) and not tr.get('c19_strict')
+                            and tr.get('model_agrees')):
                         # recorded finding `save_cut_off`: `_run_node` stores the result before it awaits the save, so
                         # run() can end — and cancel the node's task inside artifact_store.save — while the save is
-                        # suspended. Only this call site is excused: the save was awaited by the node's own task and that
-                        # task was cancelled by the end of the run. (A save that runs in a task of its own is not.)
+                        # suspended. Only this call site is excused: the save was awaited by the node's own task, that
+                        # task was cancelled by the end of the run, and the trace is reproduced handle by handle by the
+                        # model MLPE.Eng, which has this order (store, save, announce) and shares the defect. A save
+                        # that is lost in any other way — in a task of its own, after the announcements — is not.
                         continue
                     v.append(f'the value of node {n} was delivered to its consumers but its save never completed '
                              f'(it was started and cancelled)')
